@@ -102,41 +102,45 @@ def _failing(res, kind):
 
 
 def shrink(src, info, kind, seconds=20.0):
-    """line-based delta debugging: the smallest program (within the time box) that still compiles,
-    still runs into a probe at which the property fails the same way, without jedi's statement
-    recursion guard or a give-up limit being involved.  Exactness claims do not survive line
-    removal, so only `missing` failures are shrunk."""
-    import time
+    """a smaller program that fails the same way, obtained only by steps that keep the program
+    inside the generator's discipline: everything after the top-level statement that contains the
+    failing probe is dropped, every other probe (`tK = name` / `tK`, names nobody reads) becomes
+    `pass`.  The result must still run to the end like the original and fail at the same probe
+    with the same missing classes; otherwise None."""
+    import ast
     if kind != 'missing':
         return None
-    t0 = time.time()
-
-    def bad(lines):
-        text = '\n'.join(lines) + '\n'
-        try:
-            compile(text, '<shrink>', 'exec')
-            return _failing(analyse_source(text), kind) is not None
-        except Exception:
-            return False
+    res = analyse_source(src, info)
+    rec = _failing(res, kind)
+    if rec is None:
+        return None
+    want = verdict(rec)[1]
     lines = src.splitlines()
-    n = max(1, len(lines) // 2)
-    while time.time() - t0 < seconds:
-        changed = True
-        while changed and time.time() - t0 < seconds:
-            changed = False
-            i = 0
-            while i < len(lines) and time.time() - t0 < seconds:
-                cand = lines[:i] + lines[i + n:]
-                if cand and bad(cand):
-                    lines = cand
-                    changed = True
-                else:
-                    i += n if n > 2 else 1
-        if n == 1:
-            break
-        n = max(1, n // 2)
-    out = '\n'.join(lines) + '\n'
-    return out if out != src and bad(lines) else None
+    tree = ast.parse(src)
+    end = len(lines)
+    for st in tree.body:
+        if st.lineno <= rec['line'] <= st.end_lineno:
+            end = st.end_lineno
+    from gen import flowprog as F
+    keep = lines[:end]
+    for line, col, name in F.probes_of(src):
+        if line != rec['line'] and line <= end:
+            keep[line - 2] = ' ' * col + 'pass'
+            keep[line - 1] = ' ' * col + 'pass'
+    text = '\n'.join(keep) + '\n'
+    try:
+        compile(text, '<shrink>', 'exec')
+        res2 = analyse_source(text)
+    except Exception:
+        return None
+    if res2['err'] != res['err']:
+        return None
+    for r in res2['probes']:
+        if r['line'] == rec['line'] and r['jedi'] is not None and not r['gave_up']:
+            v = verdict(r)
+            if v is not None and v[2] == kind and v[1] == want:
+                return text
+    return None
 
 
 _SHRUNK = [0]
